@@ -118,7 +118,7 @@ impl PartitionConfirmationState {
         // replace a higher one already reported)
         event.confirmation_count = event.confirmation_count.max(confirmation_count);
         event.last_attempt = now;
-        event.attempts += 1;
+        event.attempts = event.attempts.saturating_add(1);
 
         // Check if we can advance the watermark
         let required_quorum = (replication_factor / 2) + 1;
